@@ -404,11 +404,17 @@ def walkB (h : Heap) : Nat → Nat → Nat → Option (List Nat)
       | some l, some r => some (i :: (l ++ r))
       | _, _ => none
 
+/-- no id twice, in `n log n` (the driver runs `wfB` after every call, also on trees of > 1000 nodes) -/
+def strictAsc : List Nat → Bool
+  | a :: b :: l => decide (a < b) && strictAsc (b :: l)
+  | _ => true
+def nodupB (l : List Nat) : Bool := strictAsc (l.mergeSort (fun a b => decide (a ≤ b)))
+
 def wfB (st : PT) : Bool :=
   match walkB st.heap (st.size + 1) st.root S with
   | none => false
   | some ids =>
-    decide ids.Nodup && ids.length == st.size && ids.all (fun i => decide (i < st.fresh)) && decide (0 < st.fresh) &&
+    nodupB ids && ids.length == st.size && ids.all (fun i => decide (i < st.fresh)) && decide (0 < st.fresh) &&
     (st.heap.get S).color == .black && (st.heap.get S).key == 0 && (st.heap.get S).value == 0 &&
     (st.heap.get S).left == 0 && (st.heap.get S).right == 0 &&
     st.heap.m.contains S && ids.all (fun i => st.heap.m.contains i)
